@@ -367,18 +367,18 @@ Proof.
   destruct (is_sl c) eqn:Esl.
   - assert (is_path_end c = true) as Hpe by (unfold is_path_end; unfold is_sl in Esl; lia).
     destruct t as [|c2 T].
-    + apply orb_true_iff. left. apply orb_true_iff. left.
+    + apply orb_true_iff. left. apply orb_true_iff. left. apply orb_true_iff. left. apply orb_true_iff. left. 
       unfold in_class_rel_abs_s. rewrite Hsb, Ecl, Esl. reflexivity.
     + destruct (is_sl c2) eqn:Esl2.
-      * apply orb_intro_r. rewrite Hcan. cbn [andb].
+      * apply orb_true_iff. left. apply orb_true_iff. left. apply orb_intro_r. rewrite Hcan. cbn [andb].
         unfold in_class_rel_authority_s. rewrite Hop, Hsp, Hnf, Ecl, Esl, Esl2. cbn [negb andb].
         apply (sp_class_ok_nodrive_from (Some c2) T). exact (hds_suffix [c] None c2 T Hd).
-      * apply orb_true_iff. left. apply orb_true_iff. left.
+      * apply orb_true_iff. left. apply orb_true_iff. left. apply orb_true_iff. left. apply orb_true_iff. left. 
         unfold in_class_rel_abs_s. rewrite Hsb, Ecl, Esl, Esl2. cbn [negb andb].
         change (@nil N) with (upe in_path_set []).
         apply (spath_ok_s_raw (c2 :: T) c [] []); [exact Hpe | reflexivity | reflexivity|].
         exact (hds_suffix [] None c (c2 :: T) Hd).
-  - apply orb_true_iff. left. apply orb_intro_r.
+  - apply orb_true_iff. left. apply orb_true_iff. left. apply orb_true_iff. left. apply orb_intro_r.
     unfold in_class_rel_path_s. rewrite Hsb, Ecl, Hs, Esl, E63, E35. cbn [negb andb].
     assert (serialize_path sb = flat_map (fun s => 47 :: s) (Whatwg.path_segments sb)) as EP.
     { unfold serialize_path, Whatwg.path_segments. unfold has_opaque_path in Hop. destruct (su_path sb); [discriminate Hop | reflexivity]. }
@@ -411,8 +411,95 @@ Proof.
   destruct (known_nobase_scheme input sch R Hs Hk0) as (Hnf & _).
   cbn [in_proved_class3]. apply orb_true_iff. left. apply orb_intro_r. unfold in_class_abs_base. rewrite Hs.
   apply andb_true_iff. split; [|exact (nobase_covers input Hk0)].
+  apply orb_true_iff. left.
   unfold base_ignored. rewrite Hnf. cbn [negb andb].
   destruct Hign as [H|H]; rewrite H; [reflexivity | apply orb_true_r].
+Qed.
+
+(* ================= a special base, a reference with the scheme of the base ================= *)
+Lemma known_base_scheme b input sch R :
+  spec_scheme (spec_clean input) = Some (sch, R) -> known_c01 (Some b) input = 0 ->
+  list_eqb sch str_file = false /\ has_drive_segment R = false
+  /\ match path b with Some p => has_drive_segment p | None => false end = false.
+Proof.
+  intros Hs Hk. unfold known_c01 in Hk. cbv zeta in Hk.
+  change (cleaned input) with (ntnl (input_new_trim_c0 input)) in Hk. rewrite <- spec_clean_is_ntnl_trim in Hk.
+  destruct (spec_scheme_some_leading _ _ _ Hs) as [E1 E2]. rewrite E1, E2 in Hk. change s_file with str_file in Hk.
+  destruct (list_eqb sch str_file); [discriminate Hk|]. cbn [orb] in Hk.
+  destruct (has_drive_segment R); [discriminate Hk|]. cbn [orb] in Hk.
+  destruct (match path b with Some p => has_drive_segment p | None => false end); [discriminate Hk|].
+  repeat split.
+Qed.
+
+(* the rest after "sch:" is empty or starts with '?' / '#': the one shape of a same-scheme reference that is
+   not in a proved class *)
+Definition same_scheme_bare (sb : spec_url) (input : list N) : bool :=
+  match spec_scheme (spec_clean input) with
+  | Some (sch, R) => list_eqb sch (su_scheme sb) && is_special_scheme sch
+                     && match R with [] => true | c :: _ => is_qh c end
+  | None => false
+  end.
+
+Theorem same_scheme_base_covers dbg shs b sb input R :
+  good_base dbg shs b sb -> sp_base_ok sb = true ->
+  spec_scheme (spec_clean input) = Some (su_scheme sb, R) -> same_scheme_bare sb input = false ->
+  known_c01 (Some b) input = 0 -> in_proved_class3 (Some sb) input = true.
+Proof.
+  intros [Rl Hok] Hsb Hs Hbare Hk.
+  destruct (known_base_scheme b input _ R Hs Hk) as (Hnf' & Hd & Hp).
+  rewrite (related_path dbg shs b sb Rl) in Hp.
+  destruct (sp_base_ok_facts sb Hsb) as (Hop & Hsp & Hnf & h & Eh).
+  unfold same_scheme_bare in Hbare. rewrite Hs, list_eqb_refl, Hsp in Hbare. cbn [andb] in Hbare.
+  destruct R as [|c t]; [discriminate Hbare|].
+  pose proof Hok as Hok0. apply andb_true_iff in Hok0. destruct Hok0 as [Hcan HnsP].
+  cbn [in_proved_class3].
+  destruct (is_sl c) eqn:Esl.
+  - assert (is_path_end c = true) as Hpe by (unfold is_path_end; unfold is_sl in Esl; lia).
+    destruct (match t with c2 :: _ => is_sl c2 | [] => false end) eqn:Esl2.
+    + (* two slashes: the base is ignored *)
+      apply orb_true_iff. left. apply orb_intro_r. unfold in_class_abs_base. rewrite Hs.
+      apply andb_true_iff. split; [|exact (nobase_covers input (known_base_own_scheme b input _ _ Hs Hk))].
+      apply orb_intro_r. unfold same_two_sl. rewrite list_eqb_refl, Hsp, Hnf. cbn [negb andb].
+      destruct t as [|c2 T]; [discriminate Esl2|]. cbn [two_sl]. rewrite Esl, Esl2. reflexivity.
+    + apply orb_intro_r. unfold in_class_relative_s. apply orb_true_iff. left. apply orb_intro_r.
+      unfold in_class_same_abs_s. rewrite Hsb, Hs, list_eqb_refl, Esl, Esl2. cbn [negb andb].
+      change (@nil N) with (upe in_path_set []).
+      apply (spath_ok_s_raw t c [] []); [exact Hpe | reflexivity | reflexivity|].
+      exact (hds_suffix [] None c t Hd).
+  - apply orb_intro_r. unfold in_class_relative_s. apply orb_intro_r.
+    unfold in_class_same_path_s. rewrite Hsb, Hs, list_eqb_refl, Esl. cbn [negb andb].
+    unfold is_qh in Hbare. apply orb_false_iff in Hbare. destruct Hbare as [E63 E35]. rewrite E63, E35. cbn [negb andb].
+    assert (serialize_path sb = flat_map (fun s => 47 :: s) (Whatwg.path_segments sb)) as EP.
+    { unfold serialize_path, Whatwg.path_segments. unfold has_opaque_path in Hop. destruct (su_path sb); [discriminate Hop | reflexivity]. }
+    rewrite EP in Hp.
+    change (@nil N) with (upe in_path_set []).
+    apply (spath_ok_s_raw (c :: t) 47 [] (removelast (Whatwg.path_segments sb))); [reflexivity | reflexivity | |].
+    + apply nowdl_removelast. exact (nowdl_of_nodrive _ None HnsP Hp).
+    + apply hds_none_some. exact Hd.
+Qed.
+
+(* ================= every base, every reference ================= *)
+(* what is asked of a base record beyond good_base: a special non-file record is not opaque and has a host
+   (true of every parse result) *)
+Definition base_shape_ok (sb : spec_url) : bool :=
+  negb (is_special_scheme (su_scheme sb)) || list_eqb (su_scheme sb) str_file || sp_base_ok sb.
+
+Theorem base_covers dbg shs b sb input :
+  good_base dbg shs b sb -> base_shape_ok sb = true -> same_scheme_bare sb input = false ->
+  known_c01 (Some b) input = 0 -> in_proved_class3 (Some sb) input = true.
+Proof.
+  intros Hb Hshape Hbare Hk. pose proof Hb as [Rl Hok].
+  destruct (spec_scheme (spec_clean input)) as [[sch R]|] eqn:Hs.
+  - destruct (is_special_scheme sch) eqn:Hsp; [|exact (own_scheme_base_covers sb b input sch R Hs (or_introl Hsp) Hk)].
+    destruct (list_eqb (su_scheme sb) sch) eqn:Eq; [|exact (own_scheme_base_covers sb b input sch R Hs (or_intror Eq) Hk)].
+    apply list_eqb_spec in Eq. subst sch.
+    destruct (known_base_scheme b input _ R Hs Hk) as (Hnf & _).
+    unfold base_shape_ok in Hshape. rewrite Hsp, Hnf in Hshape. cbn [negb orb] in Hshape.
+    exact (same_scheme_base_covers dbg shs b sb input R Hb Hshape Hs Hbare Hk).
+  - destruct (known_base_noscheme b input Hs Hk) as (Hnf & _). rewrite (rel_sch _ _ _ _ Rl) in Hnf.
+    destruct (is_special_scheme (su_scheme sb)) eqn:Hsp; [|exact (nonspecial_base_covers dbg shs b sb input Hb Hsp Hs Hk)].
+    unfold base_shape_ok in Hshape. rewrite Hsp, Hnf in Hshape. cbn [negb orb] in Hshape.
+    exact (special_base_covers dbg shs b sb input Hb Hshape Hs Hk).
 Qed.
 
 (* ================= C01_statement, slice by slice ================= *)
@@ -469,6 +556,18 @@ Proof.
   exact (special_base_covers dbg shs b sb input Hb Hsb Hs Hk).
 Qed.
 
+(* any base: a good_base pair of the right shape, any reference outside Known_C01 except a bare same-scheme
+   reference *)
+Theorem statement_base b sb input : usv_list input ->
+  good_base dbg shs b sb -> base_shape_ok sb = true -> same_scheme_bare sb input = false ->
+  known_c01 (Some b) input = 0 ->
+  host_hyp3 hp hpo hd shp shs (Some sb) input ->
+  agree_good dbg shs (parse_url dbg hp hpo hd None (Some b) input) (spec_basic_url_parse shp input (Some sb)).
+Proof.
+  intros Hu Hb Hshape Hbare Hk HH. apply (partial_equivalence_good3 dbg hp hpo hd shp shs input (Some b) (Some sb) Hu Hb); [|exact HH].
+  exact (base_covers dbg shs b sb input Hb Hshape Hbare Hk).
+Qed.
+
 End Statements.
 
 (* the same for the parser model with the host model plugged in against the Standard's parser with the
@@ -514,5 +613,16 @@ Theorem statement_special_base_model dbg idna : IdnaOK idna -> forall b sb input
     (spec_basic_url_parse (spec_host_parser idna) input (Some sb)).
 Proof.
   intros HI b sb input Hu Hb Hsb Hs Hk. apply statement_special_base; try assumption.
+  apply host_hyp3_model; [exact (idna_out idna HI) | exact Hu].
+Qed.
+
+Theorem statement_base_model dbg idna : IdnaOK idna -> forall b sb input,
+  usv_list input -> good_base dbg spec_host_serializer b sb -> base_shape_ok sb = true ->
+  same_scheme_bare sb input = false -> known_c01 (Some b) input = 0 ->
+  agree_good dbg spec_host_serializer
+    (parse_url dbg (host_parse idna) host_parse_opaque host_display None (Some b) input)
+    (spec_basic_url_parse (spec_host_parser idna) input (Some sb)).
+Proof.
+  intros HI b sb input Hu Hb Hshape Hbare Hk. apply statement_base; try assumption.
   apply host_hyp3_model; [exact (idna_out idna HI) | exact Hu].
 Qed.
